@@ -634,7 +634,8 @@ func (x *c07Run) run() *c07Violation {
 			conn.SetWriteError(errors.New("c07: broken pipe"))
 		case c07ExitMalformed:
 			conn.Feed(c07Malformed(rd.Mal, x.peerAS))
-			c00Barrier(conn, f)
+			c00Barrier(conn, f) // valid: every variant is message-aligned (header length == bytes supplied)
+			c07Send(f, 0)       // belt and braces: a no-op event is only taken from a state's select loop
 			if c00State(f) == stateNameEstablished {
 				// bio-rd tolerates this message; leave by NOTIFICATION instead
 				tolerated = true
